@@ -134,6 +134,9 @@ func newKaseOwn(w *world, k int, own bool) *kase {
 	return c
 }
 
+// foreign: the bucket of another contract, ordered like the case's own with respect to the transient bucket.
+func (c *kase) foreign() string { return c.bucket + "f" }
+
 func (c *kase) remember(name string, tx *pb.Transaction) {
 	c.txs[name] = tx
 	c.names[hex.EncodeToString(tx.Txid)] = name
@@ -254,11 +257,12 @@ type respObs struct {
 	Other []string   `json:"other"` // anything a response should not contain (unknown buckets, keys, limits)
 }
 type obs struct {
-	Keys      []keyObs `json:"keys"`  // read on the node that executed the steps (warm version cache)
-	Cold      []keyObs `json:"cold"`  // read on the second node, which has nothing but the stored data
-	Ref       []int    `json:"ref"`   // key of the write record each key's stored version refers to
-	Scan      []int    `json:"scan"`  // range read over the bucket, first node
-	Cscan     []int    `json:"cscan"` // range read over the bucket, second node
+	Keys      []keyObs `json:"keys"`    // read on the node that executed the steps (warm version cache)
+	Cold      []keyObs `json:"cold"`    // read on the second node, which has nothing but the stored data
+	Ref       []int    `json:"ref"`     // key of the write record each key's stored version refers to
+	Scan      []int    `json:"scan"`    // range read over the bucket, first node
+	Cscan     []int    `json:"cscan"`   // range read over the bucket, second node
+	Foreign   []string `json:"foreign"` // versions of the same three keys in another contract's bucket
 	Bal       balObs   `json:"bal"`
 	Transient []string `json:"transient"` // versions of the three records of the transient bucket in the stored state
 	Resp      respObs  `json:"resp"`
@@ -400,7 +404,7 @@ func (c *kase) project() (o obs) {
 	// a query that panics is an answer like any other: it is recorded (and cannot equal the specification's)
 	defer func() {
 		if r := recover(); r != nil {
-			o = obs{Keys: []keyObs{}, Cold: []keyObs{}, Ref: []int{}, Scan: []int{}, Cscan: []int{}, Transient: []string{fmt.Sprintf("panic in a query: %v", r)}, Resp: c.robs}
+			o = obs{Keys: []keyObs{}, Cold: []keyObs{}, Ref: []int{}, Scan: []int{}, Cscan: []int{}, Foreign: []string{}, Transient: []string{fmt.Sprintf("panic in a query: %v", r)}, Resp: c.robs}
 		}
 	}()
 	st := c.w.node.State
@@ -415,6 +419,19 @@ func (c *kase) project() (o obs) {
 			o.Transient = append(o.Transient, "none")
 		default:
 			o.Transient = append(o.Transient, c.verName(vd.RefTxid))
+		}
+	}
+	// the same three keys of another contract's bucket, which nothing may ever write
+	o.Foreign = []string{}
+	for n := 1; n <= 3; n++ {
+		vd, err := rd.Get(c.foreign(), keyName(n))
+		switch {
+		case err != nil:
+			o.Foreign = append(o.Foreign, "err")
+		case vd == nil || len(vd.RefTxid) == 0:
+			o.Foreign = append(o.Foreign, "none")
+		default:
+			o.Foreign = append(o.Foreign, c.verName(vd.RefTxid))
 		}
 	}
 	crd := c.w.cold.State.CreateXMReader()
@@ -666,11 +683,30 @@ func (c *kase) tamper(p *parts, op fx.Ev) error {
 		if at < 0 {
 			return fmt.Errorf("%s: key %d is not in the write set", op.Str("tk"), n)
 		}
-		if op.Str("tk") == "write_val" {
+		if op.Str("tk") == "write_val" && v == "!" {
+			// another value of the same length
+			b := append([]byte{}, p.outsExt[at].Value...)
+			if len(b) == 0 {
+				return fmt.Errorf("write_val: the value of key %d is empty", n)
+			}
+			b[0] ^= 1
+			p.outsExt[at].Value = b
+		} else if op.Str("tk") == "write_val" {
 			p.outsExt[at].Value = concVal(v)
 		} else {
 			p.outsExt = append(p.outsExt[:at], p.outsExt[at+1:]...)
 		}
+	case "write_bucket":
+		// the record of key n names the same key in another contract's bucket; a read of that key (never written, so the
+		// empty version is current) is declared with it, as xmodel.verifyOutputs demands for every written key
+		for _, o := range p.outsExt {
+			if c.keyIndex(o.Bucket, o.Key) == n {
+				o.Bucket = c.foreign()
+				p.insExt = append(p.insExt, &protos.TxInputExt{Bucket: c.foreign(), Key: keyName(n)})
+				return nil
+			}
+		}
+		return fmt.Errorf("write_bucket: key %d is not in the write set", n)
 	case "write_add", "write_app", "write_rep":
 		// one more record at the end of the write set (write_app: for a key that has a record already; write_rep: a copy of it)
 		p.outsExt = append(p.outsExt, &protos.TxOutputExt{Bucket: c.bucket, Key: keyName(n), Value: concVal(v)})
@@ -830,8 +866,8 @@ func (c *kase) tamper(p *parts, op fx.Ev) error {
 		p.cOuts = append(append(append([]*protos.TxOutput{}, p.cOuts[:j-1]...), o), p.cOuts[j:]...)
 	case "cin_omit":
 		p.cIns = nil
-	case "cin_extra":
-		// one more utxo of the vault, declared as a contract input (transient bucket) and really spent
+	case "cin_extra", "cin_steal":
+		// one more utxo of the vault really spent; cin_extra: also declared as a contract input (transient bucket)
 		var extra *protos.TxInput
 		s0 := c.txs["s0"]
 		for off, o := range s0.TxOutputs {
@@ -850,9 +886,12 @@ func (c *kase) tamper(p *parts, op fx.Ev) error {
 			}
 		}
 		if extra == nil {
-			return fmt.Errorf("cin_extra: the vault has no further utxo")
+			return fmt.Errorf("%s: the vault has no further utxo", op.Str("tk"))
 		}
 		p.cIns = append(p.cIns, extra)
+		if op.Str("tk") == "cin_steal" {
+			return nil
+		}
 		b, err := xmodel.MarshalMessages(p.cIns)
 		if err != nil {
 			return err
